@@ -42,11 +42,20 @@ func init() {
 			{Name: "unknown-network-status-counts-as-unavailable", File: "internal/k8s/nodes/nodes.go",
 				Old: "== corev1.ConditionTrue", New: "!= corev1.ConditionFalse", Expect: "NODE-NETWORK"},
 			c04Mutants[3], c04Mutants[4], c04Mutants[7], c04Mutants[8],
-			c04Mutants[len(c04Mutants)-1],
+			c04MutantNamed("speaker-scan-stops-at-unavailable-node"),
 			{Name: "key-includes-service-name", File: "speaker/layer2_controller.go",
 				Old: "ipString := toAnnounce[0].String()", New: "ipString := toAnnounce[0].String() + name", Expect: "ELECTION"},
 		},
 	})
+}
+
+func c04MutantNamed(name string) Mutant {
+	for _, m := range c04Mutants {
+		if m.Name == name {
+			return m
+		}
+	}
+	panic("no C04 mutant named " + name)
 }
 
 var c04Mutants = []Mutant{
@@ -84,6 +93,12 @@ var c04Mutants = []Mutant{
 	{Name: "speaker-scan-stops-at-unavailable-node", File: "speaker/layer2_controller.go",
 		Old: "\"reason\", \"speaker's node has NodeNetworkUnavailable condition\")\n\t\t\tcontinue",
 		New: "\"reason\", \"speaker's node has NodeNetworkUnavailable condition\")\n\t\t\tbreak", Expect: "every-speaker-examined"},
+	{Name: "node-update-filter-needs-condition-on-both-sides", File: "internal/k8s/controllers/node_controller.go",
+		Old: "\t\t\tif k8snodes.IsNetworkUnavailable(oldNode) != k8snodes.IsNetworkUnavailable(newNode) {\n\t\t\t\treturn true\n\t\t\t}\n",
+		New: "\t\t\tif len(oldNode.Status.Conditions) > 0 && k8snodes.IsNetworkUnavailable(oldNode) != k8snodes.IsNetworkUnavailable(newNode) {\n\t\t\t\treturn true\n\t\t\t}\n", Expect: "NODE-EVENTS"},
+	{Name: "availability-compared-as-one-boolean", File: "speaker/main.go",
+		Old: "\tif k8snodes.IsNetworkUnavailable(oldNode) != k8snodes.IsNetworkUnavailable(newNode) {\n\t\treturn true\n\t}\n\tif k8snodes.IsNodeExcludedFromBalancers(oldNode) != k8snodes.IsNodeExcludedFromBalancers(newNode) {\n\t\treturn true\n\t}\n\n\treturn false",
+		New: "\tavail := func(n *v1.Node) bool { return !k8snodes.IsNetworkUnavailable(n) && !k8snodes.IsNodeExcludedFromBalancers(n) }\n\treturn avail(oldNode) != avail(newNode)", Expect: "RESYNC"},
 }
 
 func runC04(p *chk.Prog, r *chk.Report) {
@@ -94,6 +109,10 @@ func runC04(p *chk.Prog, r *chk.Report) {
 	c04Winner(p, r)
 	canServeRule(p, r)
 	electionScope(p, r)
+	// a node whose network condition or exclusion label flips re-syncs every service, each input compared on its own
+	// (RESYNC, shared with C09): with --ignore-exclude-lb a labelled node is a candidate and only its network decides
+	c09Resync(p, r)
+	nodeEventsRule(p, r)
 }
 
 func runC12(p *chk.Prog, r *chk.Report) {
@@ -188,7 +207,7 @@ func c04Election(p *chk.Prog, r *chk.Report) {
 		if b := lf.MatchNew("bytes.Compare(A[:], B[:]) < 0", retResults(rets[0])[0]); b != nil {
 			// the two hashes as value expressions over the comparator's parameters (temporaries and helper
 			// parameters expanded)
-			da, db := lf.Expand(b["A"]), lf.Expand(b["B"])
+			da, db := sameRepr(lf, lf.Expand(b["A"])), sameRepr(lf, lf.Expand(b["B"]))
 			ma := lf.MatchNew(`sha256.Sum256([]byte(L[I] + "#" + S))`, da)
 			mb := lf.MatchNew(`sha256.Sum256([]byte(L[I] + "#" + S))`, db)
 			if ma != nil && mb != nil && lf.ObjOf(ma["I"]) == sc.I && lf.ObjOf(mb["I"]) == sc.J && lf.SameModulo(da, db, sc.I, sc.J) && lf.ObjOf(ma["L"]) == list {
@@ -495,6 +514,12 @@ func c04Eligible(p *chk.Prog, r *chk.Report) {
 			// s ranges over the eligible nodes
 			rs, _ := f.LoopOf(s.Node).(*ast.RangeStmt)
 			okSrc := rs != nil && rangeKey(f, rs)(key)
+			if rs != nil && !okSrc {
+				// the names collected into a list first: the element of a range over a slice
+				if _, isSlice := f.Info().TypeOf(rs.X).Underlying().(*types.Slice); isSlice && rangeVal(f, rs)(key) {
+					okSrc = true
+				}
+			}
 			if okSrc {
 				// the candidate source is built here, or handed in by the (only) callers: then it is built there, from
 				// the node map that is passed along
@@ -507,16 +532,16 @@ func c04Eligible(p *chk.Prog, r *chk.Report) {
 					if len(as2) == 0 {
 						return false
 					}
-					for _, a := range as2 {
-						as, isAs := a.(*ast.AssignStmt)
-						if !isAs || len(as.Rhs) != 1 {
-							return false
-						}
-						sites := fg.Find(func(n ast.Node) bool { return n == ast.Node(as) })
+					// the maps whose keys the source can hold, each with the place where they get there
+					srcs, okC := keySources(fn, fg, src, 0)
+					if !okC || len(srcs) == 0 {
+						return false
+					}
+					isSL := definedBy(fg, "RECV.sList.UsableSpeakers()")
+					for _, ks := range srcs {
 						switch {
-						case fn.MatchWith("maps.Keys(SL.Nodes)", as.Rhs[0], chk.H("SL", definedBy(fg, "RECV.sList.UsableSpeakers()"))) != nil:
-						case fn.MatchWith("maps.Keys(N)", as.Rhs[0], chk.H("N", nodesIn)) != nil && len(sites) == 1 &&
-							fg.Dominated(sites[0], fg.GPat(true, "SL.Disabled", chk.H("SL", definedBy(fg, "RECV.sList.UsableSpeakers()")))):
+						case fn.MatchWith("SL.Nodes", ks.m, chk.H("SL", isSL)) != nil:
+						case nodesIn(ks.m) && fg.Dominated(ks.at, fg.GPat(true, "SL.Disabled", chk.H("SL", isSL))):
 						default:
 							return false
 						}
@@ -594,6 +619,34 @@ func c04Eligible(p *chk.Prog, r *chk.Report) {
 				keyOf[s.Node] = s.Node.(*ast.CallExpr).Args[0]
 				setOf[s.Node] = s.Node.(*ast.CallExpr).Fun.(*ast.SelectorExpr).X
 				sets = append(sets, s)
+			}
+		}
+		if len(sets) == 0 {
+			// the hosting nodes collected as a list (made unique afterwards, or not at all: the caller sorts and takes the
+			// first): L = append(L, name) where L is what the function returns
+			for _, s := range g.Find(ne.IsAssignPat("L", "append(L, K)")) {
+				as := s.Node.(*ast.AssignStmt)
+				l := ne.ObjOf(as.Lhs[0])
+				returned := l != nil
+				for _, rt := range g.Returns() {
+					rr := retResults(rt)
+					if len(rr) != 1 {
+						returned = false
+						continue
+					}
+					e := rr[0]
+					if b := ne.MatchNew("slices.Compact(X)", e); b != nil {
+						e = b["X"]
+					}
+					if ne.ObjOf(e) != l {
+						returned = false
+					}
+				}
+				if returned {
+					keyOf[s.Node] = as.Rhs[0].(*ast.CallExpr).Args[1]
+					setOf[s.Node] = as.Lhs[0]
+					sets = append(sets, s)
+				}
 			}
 		}
 		x.Check("nodesWithEndpoint:usable-site", ne.Pos(), len(sets) == 1, "", "expected one `usable[node] = true`")
@@ -1055,4 +1108,107 @@ func c04KeyReadsOnly(outer, kf *chk.Fn, klit *ast.FuncLit, addrPart ast.Expr, ok
 		})
 	}
 	check(klit.Body, 0)
+}
+
+// sameRepr strips conversions between types with identical underlying types (a digest kept in a named array type): the
+// value, and how it compares byte by byte, is that of the operand.
+func sameRepr(f *chk.Fn, e ast.Expr) ast.Expr {
+	for {
+		c, ok := ast.Unparen(e).(*ast.CallExpr)
+		if !ok || len(c.Args) != 1 {
+			return e
+		}
+		var to types.Type
+		if tv, has := f.Info().Types[c.Fun]; has && tv.IsType() {
+			to = tv.Type
+		} else if tn, isTN := f.ObjOf(c.Fun).(*types.TypeName); isTN {
+			to = tn.Type()
+		}
+		if to == nil {
+			return e
+		}
+		at := f.Info().TypeOf(c.Args[0])
+		if at == nil {
+			// an expanded operand: the digest function's result type
+			if ic, isCall := ast.Unparen(c.Args[0]).(*ast.CallExpr); isCall {
+				if fo, isF := f.Callee(ic).(*types.Func); isF && fo.Type().(*types.Signature).Results().Len() == 1 {
+					at = fo.Type().(*types.Signature).Results().At(0).Type()
+				}
+			}
+		}
+		if at == nil || !types.Identical(to.Underlying(), at.Underlying()) {
+			return e
+		}
+		e = c.Args[0]
+	}
+}
+
+// keySource: the keys of map m are put into a variable at the site `at`.
+type keySource struct {
+	m  ast.Expr
+	at chk.Site
+}
+
+// keySources lists where the string list v gets its elements from, when every assignment to it takes the keys of a
+// map: maps.Keys(M) (collected or not), a loop `for k := range M { v = append(v, k) }`, a copy of another such list;
+// empty initialisations are ignored. ok is false when some assignment is anything else.
+func keySources(f *chk.Fn, g *chk.Graph, v types.Object, depth int) ([]keySource, bool) {
+	if v == nil || depth > 2 {
+		return nil, false
+	}
+	var out []keySource
+	for _, a := range assignsTo(f, v) {
+		as, isAs := a.(*ast.AssignStmt)
+		if !isAs || len(as.Lhs) != len(as.Rhs) {
+			return nil, false
+		}
+		sites := g.Find(func(n ast.Node) bool { return n == ast.Node(as) })
+		if len(sites) != 1 {
+			return nil, false
+		}
+		for i, l := range as.Lhs {
+			if id, isId := l.(*ast.Ident); !isId || f.ObjOf(id) != v {
+				continue
+			}
+			rhs := ast.Unparen(as.Rhs[i])
+			if b := f.MatchNew("slices.Collect(X)", rhs); b != nil {
+				rhs = ast.Unparen(b["X"])
+			}
+			switch {
+			case f.IsNilLit(rhs):
+			case f.MatchNew("maps.Keys(M)", rhs) != nil:
+				out = append(out, keySource{f.MatchNew("maps.Keys(M)", rhs)["M"], sites[0]})
+			case f.MatchWith("append(V, K)", rhs, chk.H("V", f.IsObj(v))) != nil:
+				rs, isRs := f.LoopOf(as).(*ast.RangeStmt)
+				if !isRs || !rangeKey(f, rs)(f.MatchNew("append(V, K)", rhs)["K"]) {
+					return nil, false
+				}
+				if _, isMap := f.Info().TypeOf(rs.X).Underlying().(*types.Map); !isMap {
+					return nil, false
+				}
+				out = append(out, keySource{rs.X, sites[0]})
+			default:
+				if cl, isCl := rhs.(*ast.CompositeLit); isCl && len(cl.Elts) == 0 {
+					continue
+				}
+				if c, isC := rhs.(*ast.CallExpr); isC {
+					if fid, isF := c.Fun.(*ast.Ident); isF && fid.Name == "make" {
+						continue
+					}
+				}
+				wid, isId := rhs.(*ast.Ident)
+				if !isId {
+					return nil, false
+				}
+				sub, okS := keySources(f, g, f.ObjOf(wid), depth+1)
+				if !okS {
+					return nil, false
+				}
+				for _, ks := range sub {
+					out = append(out, keySource{ks.m, sites[0]})
+				}
+			}
+		}
+	}
+	return out, true
 }
